@@ -169,4 +169,111 @@ theorem pad16_eq_model (n : Nat) : Gen.Utils.pad16 n = Model.Utils.pad16 n := rf
 
 example : Gen.Utils.pad16 37 = 11 ∧ Model.Utils.pad16 37 = 11 := by decide
 
+/-! ### `increment_bytes` -/
+
+/-- the loop body of the generated `increment_bytes` (state = carry, rebuilt prefix) -/
+def incStep (x : Nat × Bytes) (b : UInt8) : Nat × Bytes :=
+  (((x.1 + b.toNat) >>> 8), x.2 ++ [UInt8.ofNat (((x.1 + b.toNat) &&& 255) % 256)])
+
+theorem and255_mod (c : Nat) : (c &&& 255) % 256 = c &&& 255 :=
+  Nat.mod_eq_of_lt (Nat.lt_of_le_of_lt Nat.and_le_right (by decide))
+
+/-- the fold, generalised over the carry and the accumulated prefix -/
+theorem incFold_snd (bs : Bytes) (c : Nat) (acc : Bytes) :
+    (bs.foldl incStep (c, acc)).2 = acc ++ Model.Utils.incrementGo c bs := by
+  induction bs generalizing c acc with
+  | nil => simp [Model.Utils.incrementGo]
+  | cons b bs ih =>
+    rw [List.foldl_cons]
+    show (List.foldl incStep ((c + b.toNat) >>> 8, acc ++ [UInt8.ofNat (((c + b.toNat) &&& 255) % 256)]) bs).2 = _
+    rw [ih, and255_mod, Model.Utils.incrementGo, List.append_assoc]
+    rfl
+
+/-- side lemma: the u16 `carry += *b as u16` cannot overflow — the carry entering every iteration is ≤ 1 -/
+theorem incFold_carry_le (bs : Bytes) (c : Nat) (acc : Bytes) (hc : c ≤ 1) :
+    (bs.foldl incStep (c, acc)).1 ≤ 1 := by
+  induction bs generalizing c acc with
+  | nil => simpa using hc
+  | cons b bs ih =>
+    rw [List.foldl_cons]
+    apply ih
+    show (c + b.toNat) >>> 8 ≤ 1
+    have := b.toNat_lt
+    rw [Nat.shiftRight_eq_div_pow]; omega
+
+/-- … hence the checked u16 add of the Rust (`carry += *b as u16`) stays below 2^16 at every iteration -/
+theorem incStep_no_overflow (c : Nat) (b : UInt8) (hc : c ≤ 1) : c + b.toNat < 2^16 := by
+  have := b.toNat_lt; omega
+
+/-- the generated `increment_bytes` is the hand model, for every byte string of every length -/
+theorem increment_bytes_eq_model (bs : Bytes) :
+    Gen.Utils.increment_bytes bs = Model.Utils.incrementBytes bs := by
+  have h := incFold_snd bs 1 []
+  rw [List.nil_append] at h
+  unfold Model.Utils.incrementBytes
+  rw [← h]
+  rfl
+
+/-- sanity tests: carry propagation, full wrap-around, empty slice -/
+example : Gen.Utils.increment_bytes [0xff, 0xff, 0x01] = [0, 0, 2]
+    ∧ Model.Utils.incrementBytes [0xff, 0xff, 0x01] = [0, 0, 2] := by decide
+example : Gen.Utils.increment_bytes [0xff, 0xff] = [0, 0] ∧ Gen.Utils.increment_bytes [] = []
+    ∧ Gen.Utils.increment_bytes [0x7f, 9] = Model.Utils.incrementBytes [0x7f, 9] := by decide
+
+/-! ### `xor_buf` -/
+
+/-- the generated loop of `xor_buf` over an arbitrary index list -/
+def xorFold (inp : Bytes) (out : Bytes) (l : List Nat) : Bytes :=
+  l.foldl (fun o i => setByte o i ((byteAt o i) ^^^ (byteAt inp i))) out
+
+theorem xorFold_cons_shift (x y : UInt8) (xs ys : Bytes) (l : List Nat) :
+    xorFold (y :: ys) (x :: xs) (l.map (· + 1)) = x :: xorFold ys xs l := by
+  induction l generalizing xs with
+  | nil => rfl
+  | cons i l ih =>
+    unfold xorFold at ih ⊢
+    rw [List.map_cons, List.foldl_cons, List.foldl_cons]
+    simp only [byteAt_cons_succ, setByte, List.set_cons_succ]
+    exact ih _
+
+theorem ofNat_xor_toNat (x y : UInt8) : UInt8.ofNat (x.toNat ^^^ y.toNat) = x ^^^ y := by
+  rw [← UInt8.toNat_xor, UInt8.ofNat_toNat]
+
+theorem xorFold_eq_model (out inp : Bytes) :
+    xorFold inp out (List.range' 0 (min out.length inp.length)) = Model.Utils.xorBuf out inp := by
+  induction out generalizing inp with
+  | nil => simp [xorFold, Model.Utils.xorBuf, xorBytes]
+  | cons x xs ih =>
+    cases inp with
+    | nil => simp [xorFold, Model.Utils.xorBuf, xorBytes]
+    | cons y ys =>
+      have hmin : min (x :: xs).length (y :: ys).length = min xs.length ys.length + 1 := by
+        simp only [List.length_cons]; omega
+      have hr : List.range' 0 (min xs.length ys.length + 1)
+          = 0 :: (List.range' 0 (min xs.length ys.length)).map (· + 1) := by
+        rw [List.range'_succ, Nat.zero_add, List.range'_succ_left]
+      rw [hmin, hr]
+      unfold xorFold
+      rw [List.foldl_cons]
+      have h0 : setByte (x :: xs) 0 (byteAt (x :: xs) 0 ^^^ byteAt (y :: ys) 0) = (x ^^^ y) :: xs := by
+        simp only [byteAt_cons_zero, setByte, List.set_cons_zero, ofNat_xor_toNat]
+      rw [h0]
+      have h1 := xorFold_cons_shift (x ^^^ y) y xs ys (List.range' 0 (min xs.length ys.length))
+      unfold xorFold at h1 ih
+      rw [h1, ih ys]
+      simp [Model.Utils.xorBuf, xorBytes]
+
+/-- the generated `xor_buf` is the hand model, for all lengths (out longer, shorter, equal, empty) -/
+theorem xor_buf_eq_model (out inp : Bytes) :
+    Gen.Utils.xor_buf out inp = Model.Utils.xorBuf out inp := by
+  rw [← xorFold_eq_model]
+  rfl
+
+/-- sanity tests: `out` longer, `out` shorter, equal lengths, empty -/
+example : Gen.Utils.xor_buf [1, 2, 3, 4, 5] [0xff, 0x0f, 3] = [0xfe, 0x0d, 0, 4, 5]
+    ∧ Model.Utils.xorBuf [1, 2, 3, 4, 5] [0xff, 0x0f, 3] = [0xfe, 0x0d, 0, 4, 5] := by decide
+example : Gen.Utils.xor_buf [1, 2] [0xff, 0x0f, 3, 7] = [0xfe, 0x0d]
+    ∧ Gen.Utils.xor_buf [0xaa, 0x55] [0x55, 0xaa] = Model.Utils.xorBuf [0xaa, 0x55] [0x55, 0xaa]
+    ∧ Gen.Utils.xor_buf [] [1, 2] = [] ∧ Gen.Utils.xor_buf [1, 2] [] = [1, 2] := by decide
+
 end DryocVerif.Proofs.GenUtils
